@@ -162,6 +162,24 @@ def canon_out(entry):
     return k            # close / connect
 
 
+def channels(line):
+    """one pass as model and implementation print it, with the effects grouped by who can observe them: the order of a
+    PDU and a close on the wire matters, the order of indications to the user matters, the order of timer operations
+    matters - the interleaving of, say, an indication and the close of the socket within one action is seen by nobody"""
+    head, _, outs = line.strip().partition(' out=')
+    ev = [o for o in outs.split(',') if o]
+
+    def chan(o):
+        if o.startswith('send') or o in ('close', 'connect'):
+            return 0
+        if o.startswith('ind'):
+            return 1
+        if o.startswith('t'):
+            return 2
+        return 3
+    return '%s out=%s' % (head, ','.join(sorted(ev, key=chan)))
+
+
 def run_ticks(role, ticks, artim=ARTIM):
     """execute abstract ticks on the real provider; returns list of per-pass canonical lines + raw info"""
     s2.install()
